@@ -84,8 +84,15 @@ Section Eval.
   (* a one-expression set is written as the expression; when that expression is itself a parenthesised list of two or
      more expressions (Exps / Args), PostgreSQL reads "(a, b)" at the top level of GROUP BY as the set of a and b, not
      as a row (manual, 7.2.4): the same grouping, so both are given the set form *)
-  Definition celem (x : exp) : cn :=
+  (* wrappers that write nothing of their own: ExpBase, a one-element AND / OR *)
+  Fixpoint peel (x : exp) : exp :=
     match x with
+    | EBase y => peel y
+    | EJunction [y] _ => peel y
+    | _ => x
+    end.
+  Definition celem (x : exp) : cn :=
+    match peel x with
     | EExprs ((_ :: _ :: _) as l) => CN "set" (map cexpr l)
     | _ => cexpr x
     end.
